@@ -1,4 +1,7 @@
 """C16 — eviction listener notifications are truthful and never duplicated."""
-from props import cachelib
+from props import cachelib, cacheconc
 def run(ctx):
     cachelib.run(ctx, "C16", [("listener", 6), ("capacity", 1), ("ttl", 1)], 3600, 60000, stress=150)
+    # concurrent layer: critical-section model over all interleavings + baton-scheduled tie on the real Cache
+    cacheconc.obligations(ctx, "C16")
+    cacheconc.tie(ctx)
